@@ -150,6 +150,16 @@ func (u *Unit) callFunction(fc *frameCtx, fn *ssa.Function, args []*SV, st *Stat
 		u.havoc(st, pc, fr)
 		return u.freshResults("SetControllerReference", fn.Signature, st, pc)
 	}
+	if name == "sort.Slice" && !spec && len(args) == 2 && con == nil {
+		if res, ok := u.sortSliceCall(fc, args[0].T, st, pc); ok {
+			return res
+		}
+	}
+	if name == "sort.Sort" && !spec && len(args) == 1 && con == nil {
+		if res, ok := u.sortSortCall(fc, args[0].T, st, pc); ok {
+			return res
+		}
+	}
 	if name == "sort.Strings" && !spec && len(args) == 1 && con == nil {
 		return u.sortStringsCall(fc, args[0].T, st, pc)
 	}
@@ -541,17 +551,29 @@ func (u *Unit) addModifies(fr *FrameSpec, env *SpecEnv, m Expr) {
 	if call, ok := m.(*ECall); ok {
 		if id, ok := call.Fun.(*EIdent); ok {
 			switch id.Name {
-			case "elems": // whole backing array of a slice
-				s := env.evalTerm(call.Args[0])
-				fr.Roots = append(fr.Roots, c.Root(c.SArr(s)))
-				return
-			case "obj": // whole object a pointer points into
-				p := env.evalTerm(call.Args[0])
-				fr.Roots = append(fr.Roots, c.Root(p))
-				return
-			case "mapof":
-				mref := env.evalTerm(call.Args[0])
-				fr.Maps = append(fr.Maps, mref)
+			case "elems", "obj", "mapof":
+				// the location expression may dereference nil pointers on the way (p.f with p == nil): then it
+				// names nothing (root 0 / the nil map), not whatever the heap holds at the nil address
+				lv := env.force(env.evalLazy(call.Args[0]))
+				if lv.v == nil || lv.v.T == nil {
+					specFail("expression is not a scalar: %s", exprString(call.Args[0]))
+				}
+				t := lv.v.T
+				def := lv.def
+				switch id.Name {
+				case "elems": // whole backing array of a slice
+					// (not guarded by definedness: a conditional root defeats the syntactic separation of frames
+					// that the larger units depend on; an undefined path makes the frame larger, never smaller)
+					fr.Roots = append(fr.Roots, c.Root(c.SArr(t)))
+				case "obj": // whole object a pointer points into
+					r := c.Root(t)
+					if def != nil {
+						r = c.Ite(def, r, c.Int(0))
+					}
+					fr.Roots = append(fr.Roots, r)
+				case "mapof":
+					fr.Maps = append(fr.Maps, t)
+				}
 				return
 			}
 		}
@@ -859,7 +881,7 @@ func (u *Unit) sortStringsCall(fc *frameCtx, x *Term, st *State, pc *Term) []*SV
 	nonNil := c.Neq(c.SArr(x), c.Nil())
 	g := c.And(pc, nonNil)
 	u.checkCalleeFrame(fc, g, &FrameSpec{Roots: []*Term{c.Root(c.SArr(x))}}, "sort.Strings", token.NoPos)
-	u.havoc(st, g, fr)
+	u.havoc(st, pc, fr)
 	nw := u.heapArr(st, SStr)
 	u.counters["perm"]++
 	perm := c.Func(fmt.Sprintf("perm!%d", u.counters["perm"]), []*Sort{SInt}, SInt)
@@ -877,4 +899,89 @@ func (u *Unit) sortStringsCall(fc *frameCtx, x *Term, st *State, pc *Term) []*SV
 	nj := c.mk("select", "", SStr, nw, c.SElem(x, j))
 	u.assume(g, c.Forall([]*Term{i, j}, c.Implies(c.And(in(i), in(j), c.Lt(i, j)), c.Not(u.strLt(nj, ni))), []*Term{ni, nj}))
 	return nil
+}
+
+
+// sortSortCall: assumed contract of sort.Sort(x) for x of a named slice type whose Len and Swap are the usual slice
+// implementations (not checked). Only the elements of x change; they are a permutation of the old ones, and afterwards
+// no later element is Less than an earlier one, where Less is the type's own method evaluated on the sorted slice.
+func (u *Unit) sortSortCall(fc *frameCtx, data *Term, st *State, pc *Term) ([]*SV, bool) {
+	c := u.c
+	stt := u.ifaceStatic[data.id]
+	if stt == nil {
+		return nil, false
+	}
+	sl, ok := stt.Underlying().(*types.Slice)
+	if !ok {
+		return nil, false
+	}
+	es := u.leafSort(sl.Elem())
+	if es == nil {
+		return nil, false // composite elements: not modelled
+	}
+	var less *ssa.Function
+	if nt, ok := stt.(*types.Named); ok {
+		for i := 0; i < nt.NumMethods(); i++ {
+			if nt.Method(i).Name() == "Less" {
+				less = u.e.prog.FuncValue(nt.Method(i))
+			}
+		}
+	}
+	if less == nil {
+		return nil, false
+	}
+	u.usedTrusted["assumed contract: sort.Sort on "+typeName(stt)+" (permutation of the elements, ordered by its Less; Len/Swap assumed standard)"] = true
+	_, fv := u.ifaceFns()
+	x := u.load(st, c.App(fv, data), stt, pc).T
+	old := u.heapArr(st, es)
+	nonNil := c.Neq(c.SArr(x), c.Nil())
+	g := c.And(pc, nonNil)
+	u.checkCalleeFrame(fc, g, &FrameSpec{Roots: []*Term{c.Root(c.SArr(x))}}, "sort.Sort", token.NoPos)
+	u.havoc(st, pc, &FrameSpec{Roots: []*Term{c.Root(c.SArr(x))}, Kinds: map[string]bool{heapKey(es): true}})
+	nw := u.heapArr(st, es)
+	u.counters["perm"]++
+	perm := c.Func(fmt.Sprintf("perm!%d", u.counters["perm"]), []*Sort{SInt}, SInt)
+	inv := c.Func(fmt.Sprintf("perminv!%d", u.counters["perm"]), []*Sort{SInt}, SInt)
+	i, j := c.BoundVar("pi", SInt), c.BoundVar("pj", SInt)
+	in := func(k *Term) *Term { return c.And(c.Le(c.Int(0), k), c.Lt(k, c.SLen(x))) }
+	ni := c.mk("select", "", es, nw, c.SElem(x, i))
+	u.assume(g, c.Forall([]*Term{i}, c.Implies(in(i), c.And(in(c.App(perm, i)), c.Eq(c.App(inv, c.App(perm, i)), i), c.Eq(ni, c.Select(old, c.SElem(x, c.App(perm, i)))))), []*Term{ni}))
+	// a bijection: every old position is the image of a new one
+	u.assume(g, c.Forall([]*Term{j}, c.Implies(in(j), c.And(in(c.App(inv, j)), c.Eq(c.App(perm, c.App(inv, j)), j))), []*Term{c.App(inv, j)}))
+	k := c.BoundVar("pk", SInt)
+	outside := c.Or(c.Lt(k, c.SOff(x)), c.Ge(k, c.Add(c.SOff(x), c.SLen(x))))
+	addr := c.Elm(c.SArr(x), k)
+	nk := c.mk("select", "", es, nw, addr)
+	u.assume(g, c.Forall([]*Term{k}, c.Implies(outside, c.Eq(nk, c.Select(old, addr))), []*Term{nk}))
+	// ordering: for i < j, !Less(x, j, i) on the sorted contents
+	u.specDepth++
+	res := u.callFunction(nil, less, []*SV{leaf(x), leaf(j), leaf(i)}, st, c.And(g, in(i), in(j), c.Lt(i, j)), true)
+	u.specDepth--
+	if len(res) == 1 && res[0].T != nil {
+		nj := c.mk("select", "", es, nw, c.SElem(x, j))
+		u.assume(g, c.Forall([]*Term{i, j}, c.Implies(c.And(in(i), in(j), c.Lt(i, j)), c.Not(res[0].T)), []*Term{ni, nj}))
+	}
+	return nil, true
+}
+
+
+// sortSliceCall: assumed contract of sort.Slice(x, less): only the elements of the slice x change (an over-approximation
+// of "they are permuted": nothing is assumed about the new contents); the comparison closure is not called by the model.
+func (u *Unit) sortSliceCall(fc *frameCtx, data *Term, st *State, pc *Term) ([]*SV, bool) {
+	c := u.c
+	stt := u.ifaceStatic[data.id]
+	if stt == nil {
+		return nil, false
+	}
+	if _, ok := stt.Underlying().(*types.Slice); !ok {
+		return nil, false
+	}
+	u.usedTrusted["assumed contract: sort.Slice (writes only the elements of the slice; new contents unconstrained; the less closure is not verified)"] = true
+	_, fv := u.ifaceFns()
+	x := u.load(st, c.App(fv, data), stt, pc).T
+	g := c.And(pc, c.Neq(c.SArr(x), c.Nil()))
+	fr := &FrameSpec{Roots: []*Term{c.Root(c.SArr(x))}}
+	u.checkCalleeFrame(fc, g, fr, "sort.Slice", token.NoPos)
+	u.havoc(st, pc, fr)
+	return nil, true
 }
